@@ -12,6 +12,8 @@ for d in sorted(glob.glob(os.path.join(ROOT, "seeded", "*"))):
     def cell(tier):
         if m.get("neutralised"):
             return "no longer breaks the property after %s (was caught before it)" % m["neutralised"]["by"]
+        if m.get("outside_statement") and tier in r and not any(v["violations"] for v in r[tier].values()):
+            return "silent — the change does not contradict the statement of the property (see meta.json: outside_statement)"
         if tier not in r:
             return "not run"
         out = []
